@@ -65,6 +65,7 @@ type Exec struct {
 	globals  map[*ssa.Global]*Value
 	initDone map[*ssa.Package]bool
 	initMode int
+	initStack []*ssa.Package
 
 	pc      []*T
 	pcSet   map[int]bool
@@ -284,10 +285,12 @@ func (ex *Exec) ensureInit(pkg *ssa.Package) {
 		return
 	}
 	ex.initMode++
+	ex.initStack = append(ex.initStack, pkg)
 	saveFrame := ex.curFrame
 	func() {
 		defer func() {
 			ex.initMode--
+			ex.initStack = ex.initStack[:len(ex.initStack)-1]
 			ex.curFrame = saveFrame
 			if r := recover(); r != nil {
 				switch r := r.(type) {
@@ -778,6 +781,10 @@ func (ex *Exec) callFn(caller *frame, fn *ssa.Function, args []Value, env []Valu
 	if caller == nil {
 		caller = ex.curFrame
 	}
+	if ex.initMode > 0 && fn.Name() == "init" && fn.Pkg != nil && fn.Parent() == nil && fn.Signature.Recv() == nil && fn.Pkg.Func("init") == fn && len(ex.initStack) > 0 && ex.initStack[len(ex.initStack)-1] != fn.Pkg {
+		// dependencies are initialised lazily, on first use of one of their globals
+		return nil
+	}
 	if stub, ok := ex.h.Stubs[fnKey(fn)]; ok {
 		return ex.call(caller, stub, args)
 	}
@@ -859,7 +866,13 @@ func (ex *Exec) runFrame(fr *frame) {
 				panic(budgetExceeded{"step budget"})
 			}
 			fr.curInstr = instr
-			switch ex.visit(fr, instr) {
+			var k continuation
+			if ex.initMode > 0 {
+				k = ex.visitTolerant(fr, instr)
+			} else {
+				k = ex.visit(fr, instr)
+			}
+			switch k {
 			case kReturn:
 				return
 			case kJump:
@@ -1127,6 +1140,41 @@ func (ex *Exec) visit(fr *frame, instr ssa.Instruction) continuation {
 }
 
 type unwindExceeded struct{ why string }
+
+// visitTolerant is used during package initialisation: an instruction the
+// engine cannot execute yields a Poison value instead of aborting the init.
+func (ex *Exec) visitTolerant(fr *frame, instr ssa.Instruction) (k continuation) {
+	defer func() {
+		r := recover()
+		if r == nil {
+			return
+		}
+		u, ok := r.(unsupported)
+		if !ok {
+			panic(r)
+		}
+		ex.curFrame = fr
+		switch in := instr.(type) {
+		case *ssa.If, *ssa.Jump, *ssa.Return, *ssa.Panic, *ssa.RunDefers:
+			panic(r)
+		case ssa.Value:
+			fr.set(in, Poison{u.why})
+			k = kNext
+		default:
+			// Store / MapUpdate / Send ... : skipped
+			if st, isStore := instr.(*ssa.Store); isStore {
+				func() {
+					defer func() { recover() }()
+					if p, ok := fr.get(st.Addr).(*Value); ok && p != nil {
+						*p = Poison{u.why}
+					}
+				}()
+			}
+			k = kNext
+		}
+	}()
+	return ex.visit(fr, instr)
+}
 
 func fieldName(in *ssa.FieldAddr) string {
 	st := deref(in.X.Type()).Underlying().(*types.Struct)
